@@ -13,6 +13,7 @@ mod s_c01;
 mod s_c02;
 mod s_c03;
 mod s_c04;
+#[cfg(feature = "sync")]
 mod s_c05;
 mod s_c06;
 mod s_c07;
@@ -93,6 +94,7 @@ fn main() {
         "C02" => s_c02::run(&mut em, thorough, seed),
         "C03" => s_c03::run(&mut em, thorough, seed),
         "C04" => s_c04::run(&mut em, thorough, seed),
+        #[cfg(feature = "sync")]
         "C05" => s_c05::run(&mut em, thorough, seed),
         "C06" => s_c06::run(&mut em, thorough, seed),
         "C07" => s_c07::run(&mut em, thorough, seed),
